@@ -11,7 +11,10 @@ func genC05(g *genCtx) {
 	pool := docPool(r, plainProfile, 4, 1, 40, 14)
 	fixed := []string{"string-join(//a, ',')", "string-join(//*/@k, '-')", "ancestor::a = '1x'", "(//b)[1] = //b", "//b[ancestor::a]", "count(//a[b])",
 		"matches(string(//a), 'a|b')", "replace('abc', 'b', 'x')", "//a[matches(., '1')]", "//*[following::b]", "//a | //b", "sum(//@k) > 1", "//a[last()]", "normalize-space(//a)",
-		"concat(//a, //b)", "//a[position() < 3]/b", "reverse(//a)", "//*[preceding::a]", "//*[descendant::a/descendant::b]"}
+		"concat(//a, //b)", "//a[position() < 3]/b", "reverse(//a)", "//*[preceding::a]", "//*[descendant::a/descendant::b]",
+		"//*[matches(string(@k), string(@m))]", "//*[matches(local-name(), concat(local-name(..), '|a'))]", "count(//*[matches(., local-name())])",
+		"//*[replace(local-name(), local-name(..), 'x') = 'x']", "replace(string(//a), local-name(//*[2]), '-')", "//*[matches(local-name(), @a)]",
+		"//*[matches('abc', concat('a', local-name()))]", "string-join(//*[matches(local-name(), 'a|b')], ',')", "//*[*][last()]", "*[*][last()]"}
 	for _, e := range fixed {
 		d := pool[r.intn(len(pool))]
 		g.add(&Case{Kind: "race", Doc: d, Ctx: Ref{0, -1}, Expr: e})
@@ -163,7 +166,9 @@ var fnNames = []string{"count", "sum", "not", "boolean", "string", "number", "na
 
 func genAnyTyped(r *rng, depth int) string {
 	if depth <= 0 {
-		switch r.intn(9) {
+		switch r.intn(10) {
+		case 9:
+			return r.pick([]string{"0 div 0", "1 div 0", "-1 div 0", "number('x')", "-0", "1e0", "99999999999999999999", "0.0000000001"})
 		case 0:
 			return r.pick(numLits)
 		case 1:
@@ -220,6 +225,9 @@ func genC15(g *genCtx) {
 		"(1 = 1)/a", "(1 < 2)//a", "('a')/b", "(1)/b", "count(1)", "sum('x')", "not(1)", "0 mod 1", "5 mod -2", "-5 mod 2", "5.5 mod 2", "1 mod 0.5", "(0 div 0) mod 2",
 		"(1 div 0) mod 2", "string-length()", "normalize-space()", "name(1)", "local-name('a')", "round('x')", "floor(//zzz)", "reverse(1)", "reverse('x')/a", "string-join(1, ',')",
 		"translate(1,2,3)", "contains(1,'1')", "starts-with('a', 1)", "substring('a', 'b')", "substring(1, 1)", "concat(1, 2)", "position() = true()", "last() | a", "1 | 2", "'a' | b",
+		"substring('12345', 1, 0 div 0)", "substring('12345', 2, number('x'))", "substring('12345', -1 div 0, 1 div 0)", "substring('12345', 0 div 0)",
+		"substring('12345', 1 div 0, 1)", "substring('x', -1 div 0)", "a[0 div 0]", "a[1 div 0]", "(a)[-1 div 0]", "round(0 div 0)", "round(1 div 0)", "floor(-1 div 0)",
+		"string-length(substring('abc', 0 div 0, 1))", "translate('abc', 'ab', '')", "translate('', '', 'x')", "concat('a', 0 div 0)", "matches('a', string(//a))", "replace('a', string(@k), 'x')",
 		"true() or $x", "a[true() = 1]", "a[round(1)]", "a[round(1.2) = 1]", "(a)[round(1)]", "boolean(round(0))", "string(round(2.5))", "round(2.5) + 1", "number(true())", "sum(true())"}
 	for _, e := range fixed {
 		for k := 0; k < 3; k++ {
